@@ -37,6 +37,11 @@ ALPHABET = "abcdefghijklmnopqrstuvwxyzABCDEFGHIJKLMNOPQRSTUVWXYZ0123456789"
 
 
 def gen_labels(rng, n):
+    kind = rng.random()
+    if kind < 0.15:  # (row, col) style labels, stored as lists in the JSON case and turned into tuples at execution
+        return [list(t) for t in rng.sample([(a, b) for a in range(4) for b in range(4)], n)]
+    if kind < 0.3:
+        return rng.sample(range(1000, 9000), n)
     out = set()
     while len(out) < n:
         out.add("".join(rng.choice(ALPHABET) for _ in range(rng.randrange(1, 7))))
@@ -115,7 +120,7 @@ def features(arcs):
 def judge_mcf(case, o, labels, tag, opt):
     m = solvor_mod("flow")
     arcs = case["arcs"]
-    L = labels
+    L = [tuple(x) if isinstance(x, list) else x for x in labels]
     graph: dict = {}
     fresh = case.get("fresh") and all(isinstance(x, str) for x in L)
     cl = (lambda x: (x + "x")[:-1]) if fresh else (lambda x: x)  # equal but not identical label objects
@@ -288,6 +293,7 @@ def execute(case) -> Outcome:
     label_sets = list(case["labels"]) + ([list(range(n))] if case.get("ints_too") else [])
     for k, L in enumerate(label_sets):
         res = judge_mcf(case, o, L, f"labelling#{k}", opt)
+        L = [tuple(x) if isinstance(x, list) else x for x in L]
         if res is not None and res.status.name == "OPTIMAL":
             inv = {L[i]: i for i in range(n)}
             answers.append(sorted((inv[a], inv[b], f) for (a, b), f in res.solution.items()))
